@@ -36,6 +36,7 @@ type variant struct {
 	maxQuick  int
 	unknown   uint64    // entry node has no address for this node (dial error)
 	again     []float32 // the caller searches once more with this query before it looks at the first answer
+	wire      bool      // every remote call is a scheduling point before its request message is read (fakes.YieldBeforeCall)
 }
 
 // items[p] = vectors stored in partition p (1-dim, scores interleaved across partitions)
@@ -51,6 +52,7 @@ func build(v variant) *explore.Scenario {
 		},
 		Build: func(x *explore.Exec) func(vrt.EndReason) *explore.Violation {
 			fakes.Reset()
+			fakes.YieldBeforeCall = v.wire
 			var knows func(a, b uint64) bool
 			if v.unknown != 0 {
 				knows = func(a, b uint64) bool { return !(a == 1 && b == v.unknown) }
@@ -304,11 +306,14 @@ func main() {
 		variant{name: "full-P2-replica-lacks-dataset", mode: "full", nodes: 2, placement: [][]uint64{{1}, {2}}, k: 3, failNode: 2, failMode: "nodataset"},
 		variant{name: "full-P2-R2-replica-lacks-dataset", mode: "full", nodes: 3, placement: [][]uint64{{1, 3}, {2, 3}}, k: 3, failNode: 3, failMode: "nodataset", maxQuick: 1},
 		variant{name: "outer-P2-unknown-address", mode: "outer", nodes: 2, placement: [][]uint64{{1}, {2}}, k: 3, unknown: 2},
+		variant{name: "outer-P2-R2-unknown-address-distinct-replica-sets", mode: "outer", nodes: 4, placement: [][]uint64{{2, 3}, {2, 4}}, k: 3, unknown: 2},
 		variant{name: "outer-P2-cancel", mode: "outer", nodes: 2, placement: [][]uint64{{1}, {2}}, k: 3, cancel: true, maxQuick: 1},
 		variant{name: "full-P2-two-nodes", mode: "full", nodes: 2, placement: [][]uint64{{1}, {2}}, k: 3},
 		variant{name: "full-P3-all-on-one-remote-node-k-equals-total", mode: "full", nodes: 2, placement: [][]uint64{{2}, {2}, {2}}, k: 9, maxQuick: 1},
 		variant{name: "full-P3-all-local-k-above-total", mode: "full", nodes: 1, placement: [][]uint64{{1}, {1}, {1}}, k: 20, maxQuick: 1},
 		variant{name: "full-P2-two-searches-in-a-row", mode: "full", nodes: 2, placement: [][]uint64{{1}, {2}}, k: 3, again: []float32{10}, maxQuick: 1},
+		variant{name: "outer-P2-two-remote-nodes-wire", mode: "outer", nodes: 3, placement: [][]uint64{{2}, {3}}, k: 3, wire: true},
+		variant{name: "outer-P3-three-nodes-wire", mode: "outer", nodes: 3, placement: [][]uint64{{1}, {2}, {3}}, k: 4, wire: true, maxQuick: 1},
 		variant{name: "full-P3-R2", mode: "full", nodes: 3, placement: [][]uint64{{1, 2}, {2, 3}, {3, 1}}, k: 4},
 	)
 	var scs []*explore.Scenario
